@@ -19,7 +19,7 @@ Proof.
   - intros H. now inversion H.
   - intros H. now inversion H.
   - intros H. inversion H.
-    destruct (identify_wait_fields
+    destruct (identify_wait_fields g
                 match alist_get c (s_entries s) with
                 | Some _ => s
                 | None => mkSys (s_ps s) (s_net s) (s_pend s) (s_closed s) (alist_set c 0 (s_entries s))
@@ -27,13 +27,13 @@ Proof.
                 end c) as [_ [H3 [H4 _]]].
     rewrite H3, H4. destruct (alist_get c (s_entries s)); reflexivity.
   - destruct (conn_of conns c); intros H; now inversion H.
-  - destruct (identify_wait s c) as [s1 ch] eqn:W. intros H. inversion H. subst.
-    pose proof (identify_wait_fields s c) as F. rewrite W in F. cbn in F. destruct F as [_ [-> [-> _]]]. reflexivity.
+  - destruct (identify_wait (g_timeout g) s c) as [s1 ch] eqn:W. intros H. inversion H. subst.
+    pose proof (identify_wait_fields g s c) as F. rewrite W in F. cbn in F. destruct F as [_ [-> [-> _]]]. reflexivity.
   - destruct (negb _); [intros H; now inversion H|]. destruct out as [| |cs]; try (intros H; now inversion H).
-    destruct (handle_response sym_v id_of_n K conns s c cs false) as [[[s1 calls] evs]|] eqn:Hr.
+    destruct (handle_response sym_v id_of_n K conns (g_timeout g) s c cs false) as [[[s1 calls] evs]|] eqn:Hr.
     + apply (handle_response_spec g) in Hr. destruct Hr as [cn [m [_ [_ [_ [-> _]]]]]]. intros H. now inversion H.
     + intros H. now inversion H.
-  - destruct (handle_response sym_v id_of_n K conns s c cs true) as [[[s1 calls] evs]|] eqn:Hr.
+  - destruct (handle_response sym_v id_of_n K conns (g_timeout g) s c cs true) as [[[s1 calls] evs]|] eqn:Hr.
     + apply (handle_response_spec g) in Hr. destruct Hr as [cn [m [_ [_ [_ [-> _]]]]]]. intros H. now inversion H.
     + intros H. now inversion H.
   - intros H. now inversion H.
@@ -49,19 +49,42 @@ Proof.
   - inversion Hs. exact Hw.
   - inversion Hs. apply identify_wait_inv_wait. destruct (alist_get c (s_entries s)); exact Hw.
   - destruct (conn_of conns c); inversion Hs; exact Hw.
-  - destruct (identify_wait s c) as [s1 ch] eqn:W. inversion Hs. subst.
+  - destruct (identify_wait (g_timeout g) s c) as [s1 ch] eqn:W. inversion Hs. subst.
     change s' with (fst (s', ch)). rewrite <- W. now apply identify_wait_inv_wait.
   - destruct (negb _); [inversion Hs; subst; exact Hw|]. destruct out as [| |cs].
     + inversion Hs. now apply finish_task_inv_wait.
     + inversion Hs. now apply finish_task_inv_wait.
-    + destruct (handle_response sym_v id_of_n K conns s c cs false) as [[[s1 calls] evs]|] eqn:Hr.
+    + destruct (handle_response sym_v id_of_n K conns (g_timeout g) s c cs false) as [[[s1 calls] evs]|] eqn:Hr.
       * apply (handle_response_spec g) in Hr. destruct Hr as [cn [m [_ [_ [_ [-> _]]]]]]. inversion Hs.
         now apply finish_task_inv_wait.
       * inversion Hs. now apply finish_task_inv_wait.
-  - destruct (handle_response sym_v id_of_n K conns s c cs true) as [[[s1 calls] evs]|] eqn:Hr.
+  - destruct (handle_response sym_v id_of_n K conns (g_timeout g) s c cs true) as [[[s1 calls] evs]|] eqn:Hr.
     + apply (handle_response_spec g) in Hr. destruct Hr as [cn [m [_ [_ [_ [-> _]]]]]]. inversion Hs. exact Hw.
     + inversion Hs. subst. exact Hw.
   - inversion Hs. cbn. intros x Hx. apply close_all_open in Hx. destruct Hx as [Hx Hn]. apply Hw in Hx. tauto.
+Qed.
+
+(* with a zero timeout no identify exchange is ever left running *)
+Lemma identify_wait_notasks s c : g_timeout g = 0 -> s_tasks (fst (identify_wait (g_timeout g) s c)) = s_tasks s.
+Proof.
+  intros Ht. unfold identify_wait, spawn. rewrite Ht. cbn [Z.eqb].
+  destruct (alist_get c (s_entries s)) as [ch|]; [destruct (ch =? 0)|destruct (zin c (s_closed s))]; reflexivity.
+Qed.
+
+Lemma step_notasks s o s' mo : gstep g s o = (s', mo) -> g_timeout g = 0 -> s_tasks s = [] -> s_tasks s' = [].
+Proof.
+  unfold gstep. intros Hs Ht Hn. destruct o; cbn [step] in Hs.
+  - inversion Hs. exact Hn.
+  - inversion Hs. exact Hn.
+  - inversion Hs. rewrite identify_wait_notasks by exact Ht. destruct (alist_get c (s_entries s)); exact Hn.
+  - destruct (conn_of conns c); inversion Hs; exact Hn.
+  - destruct (identify_wait (g_timeout g) s c) as [s1 ch] eqn:W. inversion Hs. subst.
+    change s' with (fst (s', ch)). rewrite <- W. now rewrite identify_wait_notasks.
+  - rewrite Hn in Hs. cbn in Hs. inversion Hs. subst. exact Hn.
+  - destruct (handle_response sym_v id_of_n K conns (g_timeout g) s c cs true) as [[[s1 calls] evs]|] eqn:Hr.
+    + apply (handle_response_spec g) in Hr. destruct Hr as [cn [m [_ [_ [_ [-> _]]]]]]. inversion Hs. exact Hn.
+    + inversion Hs. subst. exact Hn.
+  - inversion Hs. reflexivity.
 Qed.
 
 (* after the timeout step no wait channel is open *)
